@@ -766,3 +766,61 @@ def clear_recip(X: PolyArr, max_rounds: int = 8):
     if not progressed:
       break
   return X, fac.reshape(X.shape)
+
+
+def reduce_recip_linear(X: PolyArr, max_rounds: int = 12) -> PolyArr:
+  """Canonical form modulo the atom relations r*(alpha + beta*v) = 1 for reciprocal atoms whose
+  argument is affine in exactly ONE variable v: every monomial containing both v and r is rewritten
+  with  v*r -> (1 - alpha*r)/beta.  (The relations have pairwise coprime leading monomials, hence
+  form a Groebner basis: two polynomials equal modulo the relations get the same normal form.)"""
+  sp = X.sp
+  rules = []
+  for a in sp.atoms:
+    if a['kind'] != 'recip':
+      continue
+    cols, vals = a['cols'], a['vals']
+    nonconst = [(c, v) for c, v in zip(cols, vals) if c != 0]
+    if len(nonconst) != 1:
+      continue
+    c, beta = nonconst[0]
+    s = sp.slots(sp.codes[c:c + 1])[0]
+    if (s != 0).sum() != 1:
+      continue
+    alpha = float(sum(v for cc, v in zip(cols, vals) if cc == 0))
+    rules.append((int(s[0]), a['var'] + 1, alpha, float(beta)))
+  if not rules:
+    return X
+  for _ in range(max_rounds):
+    M = _csr(X._aligned()); M.sum_duplicates()
+    coo = M.tocoo()
+    cols = np.unique(coo.col)
+    slots = sp.slots(sp.codes[cols])
+    changed = False
+    for (v, r, alpha, beta) in rules:
+      both = (slots == v).any(axis=1) & (slots == r).any(axis=1)
+      if not both.any():
+        continue
+      changed = True
+      hit_cols = cols[both]
+      hs = slots[both].copy()
+      # remove one v and one r
+      iv = np.argmax(hs == v, axis=1); hs[np.arange(len(hs)), iv] = 0
+      hs_keep_r = -np.sort(-hs, axis=1)                  # rest * r
+      ir = np.argmax(hs == r, axis=1); hs[np.arange(len(hs)), ir] = 0
+      hs_rest = -np.sort(-hs, axis=1)                    # rest
+      c_rest = sp.intern(sp.pack(hs_rest)); c_r = sp.intern(sp.pack(hs_keep_r))
+      look_rest = np.full(sp.ncols, -1, dtype=np.int64); look_r = np.full(sp.ncols, -1, dtype=np.int64)
+      look_rest[hit_cols] = c_rest; look_r[hit_cols] = c_r
+      M = _csr(X._aligned()); coo = M.tocoo()
+      is_hit = np.zeros(sp.ncols, bool); is_hit[hit_cols] = True
+      h = is_hit[coo.col]
+      rows = np.concatenate([coo.row[~h], coo.row[h], coo.row[h]])
+      ncol = np.concatenate([coo.col[~h], look_rest[coo.col[h]], look_r[coo.col[h]]])
+      data = np.concatenate([coo.data[~h], coo.data[h] / beta, -alpha * coo.data[h] / beta])
+      Mn = sps.csr_matrix((data, (rows, ncol)), shape=(M.shape[0], sp.ncols))
+      Mn.sum_duplicates()
+      X = PolyArr(X.shape, Mn, sp)
+      break
+    if not changed:
+      break
+  return X
